@@ -1,5 +1,6 @@
 import BSModel.Proofs.TokenizerTags
 import BSModel.Proofs.TokenizerRoundAttrs
+import BSModel.Proofs.TokenizerErr
 /-! # TK — CPython's `html.parser` tokenizer as bs4 drives it (`feed(text); close()`, `convert_charrefs=False`)
 
 Theorems about the executable model `BS.Tokenizer.run` (`Model/Tokenizer.lean`, a code mirror of `html/parser.py` and
@@ -12,7 +13,9 @@ parameters (`html.unescape`, `str.lower`):
 * coverage: the chunks consumed for the callbacks, in order, followed by the unconsumed rest, are the text; the rest is
   empty unless the parser raised or CDATA mode (`<script>`/`<style>` without end tag) is still on at `close()`;
 * data callbacks carry exactly the text of their span;
-* the fuel of the model's loops never runs out (every continuing turn consumes at least one character).
+* the fuel of the model's loops never runs out (every continuing turn consumes at least one character);
+* the parser raises only inside `parse_marked_section` (texts without `<![` are never rejected);
+* round trips of `parse_starttag` / `parse_endtag` / `parse_comment` on a small writer grammar.
 
 `Tok.skip` marks the two stretches CPython consumes without any callback (`</>`, and the `&` of an incomplete
 reference that is all that is left at `close()`). -/
@@ -154,6 +157,23 @@ theorem turn_consumes (P : Params) (end_ : Bool) (st : St) :
     attribute loops of `locatestarttagend_tolerant` and `parse_starttag`); none of them ever runs out, and the dead end
     `gtpos = -1` of `parse_endtag` (parser.py:404) is unreachable: the outcome is never `stuck`. -/
 theorem fuel_suffices (P : Params) (text : PStr) : (run P text).flag ≠ .stuck := run_not_stuck P text
+
+/-! ### errors -/
+
+/-- **where `error` can come from.** The tokenizer raises (`AssertionError`, which bs4 reports as
+    `ParserRejectedMarkup`) only inside `parse_marked_section`: if `feed(text); close()` ends in `error`, the text
+    contains `<![` somewhere. Contrapositive: a text without `<![` is tokenized to the end, whatever else it contains. -/
+theorem error_only_from_marked_section (P : Params) (text : PStr) (h : (run P text).flag = .err) :
+    ∃ i, (text.drop i).take 3 = [60, 33, 91] := by
+  obtain ⟨i, hi⟩ := run_err P text h
+  exact ⟨i, by simpa [sw] using hi⟩
+
+/-- one loop turn: an `error` outcome means `parse_marked_section` raised at the index the turn had reached — its
+    "expected name token" / "unknown status keyword" assertions (`_markupbase.py:389-392, 153-156`) -/
+theorem turn_error_is_marked_section (P : Params) (end_ : Bool) (st : St) (h : (step P end_ st).2.2 = some .err) :
+    ∃ j, (st.s.drop j).take 3 = [60, 33, 91] ∧ parseMarkedSection st.cd (st.s.drop j) = .err := by
+  obtain ⟨j, h1, h2⟩ := step_err P end_ st h
+  exact ⟨j, by simpa [sw] using h1, h2⟩
 
 /-! ### the form C18 composes with: the positions of the start-tag callbacks, in order -/
 
